@@ -19,7 +19,7 @@ import re
 
 import hirq
 
-K_REC = 1        # a function may be re-entered this many times on one path (nesting depth K_REC+1)
+K_REC = 2        # a function may be re-entered this many times on one path (nesting depth K_REC+1)
 K_LOOP = 3       # iterations of a pointer-chasing loop
 
 UNK = ("unk",)
@@ -268,8 +268,7 @@ class State:
         return s
 
     def key(self, val=None):
-        return (self.trace, self.exit, val, tuple(sorted(self.env.items(), key=lambda kv: kv[0])),
-                frozenset(self.cons.items()), self.stack)
+        return (self.trace, self.exit, val, frozenset(self.env.items()), frozenset(self.cons.items()), self.stack)
 
     def note(self, text):
         if len(self.notes) < 24 and text not in self.notes:
@@ -277,6 +276,8 @@ class State:
 
 
 def dedupe(pairs):
+    if len(pairs) < 2:
+        return pairs
     seen = {}
     out = []
     for st, v in pairs:
@@ -301,7 +302,7 @@ def merge_cons(pairs, protected=None):
         try:
             prot = frozenset((ck, cv) for ck, cv in st.cons.items()
                              if ck[0] in ("var", "len", "none") or (protected is not None and protected(ck, cv)))
-            k = (st.trace, st.exit, v, tuple(sorted(st.env.items(), key=lambda kv: kv[0])), st.stack, prot)
+            k = (st.trace, st.exit, v, frozenset(st.env.items()), st.stack, prot)
             hash(k)
         except TypeError:
             order.append((None, (st, v)))
@@ -351,6 +352,14 @@ class Interp:
             # an attribute of the node (operator, name, flag, type reference): an analysis datum keyed by the node
             return ("ad", accstr(acc[1:]), (path,))
         return ("at", path, acc, strip_ref(ty))
+
+    def symname(self, v):
+        if isinstance(v, tuple) and v and v[0] == "ad":
+            return v[1] + "."
+        if isinstance(v, tuple) and v and v[0] == "sym" and isinstance(v[1], tuple) and len(v[1]) == 2 \
+                and isinstance(v[1][1], str):
+            return self.symname(v[1][0]) + v[1][1] + "."
+        return ""
 
     def sym(self, node, st, extra=None):
         return ("sym", (id(node), st.ctx, extra))
@@ -857,12 +866,14 @@ class Interp:
                 return [(st, cur)]
             a = st.clone()
             a.cons[key] = True
-            if t == "ad":
-                a.note("%s(%s)" % (v[1], ", ".join(pathstr(p) for p in v[2])))
             b = st
             b.cons[key] = False
             if t == "ad":
+                a.note("%s(%s)" % (v[1], ", ".join(pathstr(p) for p in v[2])))
                 b.note("not %s(%s)" % (v[1], ", ".join(pathstr(p) for p in v[2])))
+            elif isinstance(v[1], tuple) and len(v[1]) == 2 and isinstance(v[1][1], str):
+                a.note("%s%s()" % (self.symname(v[1][0]), v[1][1]))
+                b.note("not %s%s()" % (self.symname(v[1][0]), v[1][1]))
             return [(a, True), (b, False)]
         if has_tracked(v):
             raise Unint("condition on %s" % t)
